@@ -60,16 +60,16 @@ Definition witnesses : list value :=
   [wit_tuple; wit_enum; wit_collision; wit_qname; wit_init; wit_std; wit_ok].
 
 (* the other clauses of the guard hold: each witness isolates one clause *)
-Definition only_array W v := negb (g_array W v) && g_enum W v && g_imports W v && g_raw W v && g_init W v && g_std W v.
-Definition only_enum W v := g_array W v && negb (g_enum W v) && g_imports W v && g_raw W v && g_init W v && g_std W v.
-Definition only_imports W v := g_array W v && g_enum W v && negb (g_imports W v) && g_raw W v && g_init W v && g_std W v.
-Definition only_raw W v := g_array W v && g_enum W v && g_imports W v && negb (g_raw W v) && g_init W v && g_std W v.
-Definition only_init W v := g_array W v && g_enum W v && g_imports W v && g_raw W v && negb (g_init W v) && g_std W v.
-Definition only_std W v := g_array W v && g_enum W v && g_imports W v && g_raw W v && g_init W v && negb (g_std W v).
+Definition only_array W v := negb (g_array W v) && g_imports W v && g_raw W v && g_init W v && g_std W v.
+Definition only_imports W v := g_array W v && negb (g_imports W v) && g_raw W v && g_init W v && g_std W v.
+Definition only_raw W v := g_array W v && g_imports W v && negb (g_raw W v) && g_init W v && g_std W v.
+Definition only_init W v := g_array W v && g_imports W v && g_raw W v && negb (g_init W v) && g_std W v.
+Definition only_std W v := g_array W v && g_imports W v && g_raw W v && g_init W v && negb (g_std W v).
 
 Lemma array_refuted : wf W_wit wit_tuple = true /\ only_array W_wit wit_tuple = true /\ roundtrip W_wit wit_tuple = false.
 Proof. vm_compute. auto 10. Qed.
-Lemma inner_enum_refuted : wf W_wit wit_enum = true /\ only_enum W_wit wit_enum = true /\ roundtrip W_wit wit_enum = false.
+(* members of inner Enums: repaired in /repo fc8f170; kept as a regression witness *)
+Lemma inner_enum_fixed : wf W_wit wit_enum = true /\ guard W_wit wit_enum = true /\ roundtrip W_wit wit_enum = true.
 Proof. vm_compute. auto 10. Qed.
 Lemma import_collision_refuted :
   wf W_wit wit_collision = true /\ only_imports W_wit wit_collision = true /\ roundtrip W_wit wit_collision = false.
@@ -83,16 +83,9 @@ Lemma std_refuted : wf W_wit wit_std = true /\ only_std W_wit wit_std = true /\ 
 Proof. vm_compute. auto 10. Qed.
 (* the module name datetime is needed, only the class name date is imported *)
 Lemma imports_sufficient_std_refuted :
-  wf W_wit wit_std = true /\ g_enum W_wit wit_std = true /\
+  wf W_wit wit_std = true /\
   In (lit "datetime") (heads (repr W_wit wit_std)) /\ is_builtin (lit "datetime") = false /\
   existsb (fun p => str_eqb (snd p) (lit "datetime")) (imports W_wit wit_std) = false.
-Proof. vm_compute. auto 10. Qed.
-
-(* the name Kind is needed, is not a builtin, and no import line binds it *)
-Lemma imports_sufficient_refuted :
-  wf W_wit wit_enum = true /\ g_std W_wit wit_enum = true /\
-  In (lit "Kind") (heads (repr W_wit wit_enum)) /\ is_builtin (lit "Kind") = false /\
-  existsb (fun p => str_eqb (snd p) (lit "Kind")) (imports W_wit wit_enum) = false.
 Proof. vm_compute. auto 10. Qed.
 
 Lemma guard_nonvacuous : wf W_wit wit_ok = true /\ guard W_wit wit_ok = true /\ roundtrip W_wit wit_ok = true.
